@@ -708,22 +708,23 @@ example :
 
 /-! ## bool ids (F7) -/
 
-/-- **bool_id_distinct.**  In the repaired tree a response whose id is `true`/`false` never
+/-- **bool_id_distinct.**  In the repaired tree (`rejectBool`, F07; tied by `facts_admit_table`,
+    `facts_process_table` and `facts_conn_rejects_bool`) a response whose id is `true`/`false` never
     completes anything, on any protocol and whatever is outstanding (in particular not requests
     1 / 0, although `True == 1` and `False == 0` in Python): it is rejected with `ProtocolError`
     and the connection is unchanged.  Likewise a response batch with a bool id among its
     members. -/
-theorem bool_id_distinct (lg sg : Bool) (k : Nat) (c : Conn V) (d : Proto) (b : Bool) :
+theorem bool_id_distinct (vr : Variant) (hr : vr.rejectBool = true) (k : Nat) (c : Conn V) (d : Proto) (b : Bool) :
     (∀ (wf : Bool) (r : Res V),
-      step (repaired lg sg) k c (.recvSingle d ⟨some (.bool b), wf, r⟩) =
+      step vr k c (.recvSingle d ⟨some (.bool b), wf, r⟩) =
         (c.settled d, .raised .protocolError)) ∧
     (∀ ms : List (RawResp V), (∃ m ∈ ms, m.id = some (.bool b)) →
-      step (repaired lg sg) k c (.recvBatch d ms) = (c.settled d, .raised .protocolError)) := by
+      step vr k c (.recvBatch d ms) = (c.settled d, .raised .protocolError)) := by
   constructor
   · intro wf r
     rw [step_recvSingle]
     cases hp : c.detect d <;> cases wf <;>
-      simp [processResponse, admitId, repaired, recvResponse, Id.isBool]
+      simp [processResponse, admitId, hr, recvResponse, Id.isBool]
     all_goals
       apply complete_none
       rintro ⟨key, t⟩ _
@@ -733,19 +734,19 @@ theorem bool_id_distinct (lg sg : Bool) (k : Nat) (c : Conn V) (d : Proto) (b : 
     cases hp : c.detect d with
     | v1 => simp [Proto.allowBatches]
     | v2 =>
-      have hmal : (ms.map (processResponse (repaired lg sg) .v2)).any (·.2.isMalformed) = true := by
+      have hmal : (ms.map (processResponse vr .v2)).any (·.2.isMalformed) = true := by
         rw [any_eq_true]
-        exact ⟨_, mem_map.2 ⟨m, hm, rfl⟩, by simp [processResponse, hid, admitId, repaired, Body.isMalformed]⟩
-      have hne : (ms.map (processResponse (repaired lg sg) .v2)).isEmpty = false := by
+        exact ⟨_, mem_map.2 ⟨m, hm, rfl⟩, by simp [processResponse, hid, admitId, hr, Body.isMalformed]⟩
+      have hne : (ms.map (processResponse vr .v2)).isEmpty = false := by
         cases ms with
         | nil => simp at hm
         | cons _ _ => rfl
       simp [Proto.allowBatches, recvResponseBatch, hmal, hne]
     | loose =>
-      have hmal : (ms.map (processResponse (repaired lg sg) .loose)).any (·.2.isMalformed) = true := by
+      have hmal : (ms.map (processResponse vr .loose)).any (·.2.isMalformed) = true := by
         rw [any_eq_true]
-        exact ⟨_, mem_map.2 ⟨m, hm, rfl⟩, by simp [processResponse, hid, admitId, repaired, Body.isMalformed]⟩
-      have hne : (ms.map (processResponse (repaired lg sg) .loose)).isEmpty = false := by
+        exact ⟨_, mem_map.2 ⟨m, hm, rfl⟩, by simp [processResponse, hid, admitId, hr, Body.isMalformed]⟩
+      have hne : (ms.map (processResponse vr .loose)).isEmpty = false := by
         cases ms with
         | nil => simp at hm
         | cons _ _ => rfl
@@ -892,6 +893,9 @@ theorem facts_guards : lookupGuarded = true ∧ sortGuarded = true := by decide
 def treeVariant : Variant :=
   { repaired Facts.C01.lookupGuarded Facts.C01.sortGuarded with
     failDrawsSingle := Facts.C01.failDrawsSingle, failDrawsBatch := Facts.C01.failDrawsBatch }
+
+/-- `bool_id_distinct` applies to the variant the driver runs -/
+theorem facts_variant_rejects_bool : treeVariant.rejectBool = true := rfl
 
 /-- hence `unknown_id_harmless` applies to the tree as probed -/
 theorem facts_guards_variant :
